@@ -14,7 +14,8 @@ HARNESSES = [
     kani.H("c15_hist_empty_bounds", "empty bound list is rejected", "-", 100, functions=FUNCS),
 ]
 ASSUME = ["bit-identical `_sum` across different batchings is not demanded (float addition is not associative)",
-          "the rolling summary window is not covered by this check; DDSketch quantile accuracy is not applicable (transcendental floats)"]
+          "rolling summary window (E3): the sketch (`Summary`) is modelled as the multiset of samples it was given, so the check decides *which* samples the quantiles are computed from, the total count and nothing about the "
+          "sketch's numerics; DDSketch quantile accuracy is not applicable (transcendental floats); timestamps are non-decreasing in recording order (out-of-order batches are outside the bound)"]
 
 
 ASSUME_E3 = ["E3 (matcher precedence): DistributionBuilder::{new,get_distribution,get_distribution_type} with two bucket overrides of symbolic kind (Full/Prefix/Suffix) and symbolic patterns of 1-2 characters, "
@@ -174,6 +175,135 @@ def precedence(e3):
             check.discharge_many(e3.res, specs, 120)
 
 
+def rolling_window(e3, nsamples, batch, nb):
+    """Distribution::new_summary(q, d, n); record_samples over `nsamples` samples with non-decreasing timestamps (one batch or singly);
+    RollingSummary::snapshot(now). The DDSketch (`Summary`) is the multiset of sample indices it was given (its numerics are outside the
+    claim), so the snapshot says exactly which samples the quantiles are computed from. Time is a mathematical integer (ns)."""
+    import z3
+    import _e3
+    from mirsmt import sym, models, check, models_str as MS, models_coll as MC
+    from mirsmt.sym import Ptr, Agg, Enum, Native, Fork, UNIT, bv, Opaque, Script
+    P = _e3.program(["metrics-exporter-prometheus"])
+    new_b = P.find("Distribution", "new_summary")
+    rec_b = P.find("Distribution", "record_samples")
+    snap_b = P.find("RollingSummary", "snapshot")
+    d = z3.Int("bucket_duration")
+    n = z3.IntVal(nb)            # concrete per scenario: keeps n*d linear
+    ts = [z3.Int(f"ts{i}") for i in range(nsamples)]
+    now = z3.Int("now")
+    vals = [z3.BitVec(f"sample{i}", 64) for i in range(nsamples)]
+    base = [d > 0, d < (1 << 40), n >= 1, n <= 3, ts[0] >= 0] + [ts[i] <= ts[i + 1] for i in range(nsamples - 1)] + [now >= ts[-1], now < (1 << 50)] + [t < (1 << 50) for t in ts]
+
+    def ld(eng, ctx, v):
+        return MC.load(eng, ctx, v)
+
+    def m_summary_add(eng, ctx, f, path, args, dty):
+        cur = ld(eng, ctx, args[0])
+        v = args[1]
+        idx = [i for i, x in enumerate(vals) if z3.is_expr(v) and v.eq(x)]
+        eng.store_ptr(ctx, args[0], Native("summary", tuple(cur.data) + (idx[0] if idx else ("?", v),)))
+        return UNIT
+
+    def m_summary_merge(eng, ctx, f, path, args, dty):
+        cur, other = ld(eng, ctx, args[0]), ld(eng, ctx, args[1])
+        eng.store_ptr(ctx, args[0], Native("summary", tuple(cur.data) + tuple(other.data)))
+        return Enum(0, {0: Agg({0: UNIT})}, "Result")
+
+    def _chk(op):
+        def h(eng, ctx, f, path, args, dty):
+            a, b_ = ld(eng, ctx, args[0]), ld(eng, ctx, args[1])
+            r = a - b_
+            return Fork([(r >= 0, Enum(1, {1: Agg({0: r})}, "Option")), (r < 0, Enum(0, {}, "Option"))])
+        return h
+    m = {r"(^|::)Summary::with_defaults$": lambda *a: Native("summary", ()), r"(^|::)Summary::add$": m_summary_add, r"(^|::)Summary::merge$": m_summary_merge,
+         r"^<Summary as Clone>::clone$": lambda eng, ctx, f, path, args, dty: ld(eng, ctx, args[0]),
+         r"Duration::is_zero$": lambda eng, ctx, f, path, args, dty: ld(eng, ctx, args[0]) == 0,
+         r"^<Duration as Mul<u32>>::mul$|^<Duration as Mul>::mul$": lambda eng, ctx, f, path, args, dty: args[0] * args[1],
+         r"NonZero.*::get$": lambda eng, ctx, f, path, args, dty: ld(eng, ctx, args[0]),
+         r"Instant as Add(<Duration>)?>::add$": lambda eng, ctx, f, path, args, dty: args[0] + args[1],
+         r"Instant as AddAssign(<Duration>)?>::add_assign$": lambda eng, ctx, f, path, args, dty: (eng.store_ptr(ctx, args[0], eng.load_ptr(ctx, args[0]) + args[1]), UNIT)[1],
+         r"Instant::checked_sub$": _chk("sub"),
+         r"Instant as PartialOrd>::(gt|ge|lt|le)$": lambda eng, ctx, f, path, args, dty: {"gt": lambda x, y: x > y, "ge": lambda x, y: x >= y, "lt": lambda x, y: x < y, "le": lambda x, y: x <= y}[path.rsplit("::", 1)[1]](ld(eng, ctx, args[0]), ld(eng, ctx, args[1])),
+         r"^Arc::new$": models.m_identity}
+    m.update(models.BASE)
+    eng = sym.Engine(P, models=m, loop_bound=nsamples + 4, max_paths=20000)
+    eng.merging = False
+    eng.int_mode = True
+    ctx0 = sym.Ctx(eng, 1)
+    pairs = [Agg({0: vals[i], 1: ts[i]}) for i in range(nsamples)]
+
+    def script():
+        dist = yield ("call", new_b, [Opaque("quantiles"), d, n])
+        yield ("setstatic", "dist", dist)
+        dp = Ptr(("static", "dist"))
+        if batch:
+            yield ("call", rec_b, [dp, MS.lvec(tuple(pairs))])
+        else:
+            for p_ in pairs:
+                yield ("call", rec_b, [dp, MS.lvec((p_,))])
+        dv = yield ("getstatic", "dist")
+        # Distribution::Summary(rolling, quantiles, sum)
+        sv = [pv for pv in dv.v.values() if pv.f and isinstance(pv.f.get(0), Agg)]
+        if len(sv) != 1:
+            raise sym.Unsupported(f"Distribution value {dv}")
+        yield ("setstatic", "rolling", sv[0].f[0])
+        snap = yield ("call", snap_b, [Ptr(("static", "rolling")), now])
+        return Agg({0: snap, 1: sv[0].f[0], 2: sv[0].f[2]})
+    leaves = eng.run_script(1, "rolling summary", script, ctx0=ctx0)
+    e3.absorb(eng)
+    done = [l for l in leaves if l.status == "done"]
+    other = z3.Or(*[l.taken() for l in leaves if l.status != "done"] or [z3.BoolVal(False)])
+    window = n * d
+    stale, missing, miscount, dup = [], [], [], []
+    for l in done:
+        snap, rolling, total = l.ret.f[0], l.ret.f[1], l.ret.f[2]
+        got = list(snap.data) if isinstance(snap, Native) and snap.kind == "summary" else None
+        if got is None or any(not isinstance(g, int) for g in got):
+            stale.append(l.taken())
+            continue
+        for i in range(nsamples):
+            c = got.count(i)
+            if c > 1:
+                dup.append(l.taken())
+            if c >= 1:
+                stale.append(z3.And(l.taken(), ts[i] <= now - window))                 # older than the window, yet counted
+            else:
+                missing.append(z3.And(l.taken(), ts[i] > now - window + d))               # safely inside the window, yet ignored
+        cnt = [v for k, v in rolling.f.items() if z3.is_expr(v) and z3.is_int(v)]
+        # the never-reset total count is one of the integer fields of RollingSummary: it must equal the number of samples
+        miscount.append(z3.And(l.taken(), z3.Not(z3.Or(*[c_ == nsamples for c_ in cnt])) if cnt else z3.BoolVal(True)))
+    orr = lambda xs: z3.Or(*xs) if xs else z3.BoolVal(False)
+    cname = f"c15_window_{nsamples}{'batch' if batch else 'single'}_n{nb}"
+    bounds = (f"Distribution::new_summary(quantiles, d, n) with any bucket duration d and {nb} bucket(s); {nsamples} samples with any non-decreasing timestamps recorded {'as one batch' if batch else 'one call each'}; "
+              f"RollingSummary::snapshot(now) at any now >= the last timestamp; {len(done)} paths")
+
+    def on_model(ob, model):
+        import replay_e3
+        ev = lambda t: model.eval(t, model_completion=True).as_long()
+        inputs = {"n": nb, "d": ev(d), "now": ev(now), "k": nsamples, "batch": int(batch)}
+        for i in range(nsamples):
+            inputs[f"ts{i}"] = ev(ts[i])
+        ob.sample = dict(inputs)
+        os.makedirs(os.path.join(REPLAYS, "C15"), exist_ok=True)
+        pp = os.path.join(REPLAYS, "C15", f"{cname}.{ob.name.split(':')[1]}.plan")
+        open(pp, "w").write(replay_e3.plan_text("c15_window", ob.name.split(":")[1], {}, [], inputs))
+        status, out = replay_e3.run("c15", pp)
+        ob.detail += f" | native replay (c15, PrometheusRecorder with a mock clock, rendered quantiles): {status}"
+        ob.sample["native_replay"] = {"status": status, "output": out[-500:]}
+        ob.replay = pp
+        ob.reproduced = status == "reproduced"
+        if not ob.reproduced:
+            ob.status = "error"
+            ob.detail += " — counterexample did NOT reproduce natively: treated as an encoder/model problem, not reported as a violation"
+    specs = [dict(name=f"{cname}:witness", desc="a snapshot with an aged-out sample exists", bounds=bounds, cons=base + [orr([l.taken() for l in done]), ts[0] <= now - window], expect_unsat=False),
+             dict(name=f"{cname}:returns", desc="add / snapshot panics or exceeds a loop bound", bounds=bounds, cons=base + [other], expect_unsat=True, on_model=on_model),
+             dict(name=f"{cname}:quantiles_ignore_samples_older_than_the_window", desc="a sample older than the rolling window (timestamp <= now - n*d) still contributes to the quantiles", bounds=bounds, cons=base + [orr(stale)], expect_unsat=True, on_model=on_model),
+             dict(name=f"{cname}:quantiles_cover_samples_inside_the_window", desc="a sample recorded in timestamp order and well inside the window (timestamp > now - n*d + d) is ignored by the quantiles, or counted twice", bounds=bounds,
+                  cons=base + [orr(missing + dup)], expect_unsat=True, on_model=on_model),
+             dict(name=f"{cname}:count_covers_all_samples", desc="the total count kept by the summary is not the number of samples recorded", bounds=bounds, cons=base + [orr(miscount)], expect_unsat=True, on_model=on_model)]
+    check.discharge_many(e3.res, specs, 300)
+
+
 def run(tier, seed, t0):
     import _e3
     from mirsmt import sym
@@ -182,6 +312,11 @@ def run(tier, seed, t0):
         precedence(e3)
     except _e3.ENC_ERRORS as ex:
         e3.error("c15_precedence", "MIR->SMT encoding of DistributionBuilder", ex)
+    for k, batch, nb in ([(2, True, 3), (2, False, 2), (3, True, 2), (2, True, 1)] if tier == "quick" else [(2, True, 3), (2, False, 2), (3, True, 2), (2, True, 1), (3, False, 3), (4, True, 3), (3, True, 1)]):
+        try:
+            rolling_window(e3, k, batch, nb)
+        except _e3.ENC_ERRORS as ex:
+            e3.error(f"c15_window_{k}{'batch' if batch else 'single'}_n{nb}", "MIR->SMT encoding of Distribution::record_samples / RollingSummary", ex)
     obs = list(e3.res.obligations)
     obs += kani.run_group("util", HARNESSES, tier, hooks=True)
     finish("C15", tier, seed, obs, t0, ASSUME + ASSUME_E3 + ["E3 callee models: " + ", ".join(sorted(e3.models))], FUNCS + sorted(e3.functions),
